@@ -63,6 +63,18 @@ def hand_scenarios():
     # included files with a large metadata block (its size must not matter): the base override comes after a long value
     for pad in (200, 3000, 4090, 5000, 9000):
         out.append(("html", "R/a.txt", {"R/a.txt": F([T("A "), M("big.txt"), T(" end\n")]), "R/big.txt": dict(F([T("B "), M("leaf.txt"), T("\n")], True, "sub"), pad=pad), "R/sub/leaf.txt": F([T("LEAFSUB")]), "R/leaf.txt": F([T("LEAFTOP")])}))
+    # many files: a top-level file that refers to n distinct files (the manifest and the stack of files being parsed grow past their first allocation of 64 entries),
+    # and chains n files deep whose last file refers back to files that are being parsed (near the top, in the middle, its own parent)
+    for n in (63, 64, 65, 66, 129, 130):
+        fsw = {"R/a.txt": F(sum([[M("w%03d.txt" % k), T(" ")] for k in range(1, n + 1)], []) + [T("end\n")])}
+        for k in range(1, n + 1): fsw["R/w%03d.txt" % k] = F([T("W%d" % k)] + ([M("w001.txt")] if k == n else []))
+        out.append(("html", "R/a.txt", fsw))
+    for n in (62, 63, 64, 65, 66, 67, 130):
+        fsc = {"R/a.txt": F([T("A["), M("c001.txt"), T("]\n")])}
+        for k in range(1, n + 1):
+            nxt = [M("c%03d.txt" % (k + 1))] if k < n else [M("c001.txt"), T("|"), M("c%03d.txt" % max(1, n // 2)), T("|"), M("c%03d.txt" % max(1, n - 1)), T("|"), M("a.txt")]
+            fsc["R/c%03d.txt" % k] = F([T("c%d[" % k)] + nxt + [T("]")])
+        out.append(("html", "R/a.txt", fsc))
     out.append(("html", "R/a.txt", {"R/a.txt": F([T("toc "), M("TOC"), T(" "), M("b.txt"), T("\n")]), "R/b.txt": F([T("B "), M("TOC")])}))
     out.append(("html", "R/a.txt", {"R/a.txt": F([T("A "), M("b.txt"), M("b.txt"), T(" "), M("c.txt")]), "R/b.txt": F([M("c.txt"), T("B")], True), "R/c.txt": F([T("C"), M("a.txt")], True)}))
     return out
